@@ -208,7 +208,7 @@ fn new_body(v1: bool) {
 #[kani::unwind(50)]
 fn c08_net_new_v1() { new_body(true) }
 
-// @harness props=C08,C09,C16 tier=quick timeout=2400
+// @harness props=C08,C09,C16 tier=thorough timeout=2400
 #[kani::proof]
 #[kani::unwind(50)]
 fn c08_net_new_legacy() { new_body(false) }
